@@ -36,6 +36,7 @@ KIND_BY_MSG = [
     ("possible arithmetic underflow/overflow", "overflow"),
     ("possible division by zero", "div0"),
     ("assertion failed", "assert"),
+    ("requires not satisfied", "assert"),     # the `requires` of an `assert(..) by(nonlinear_arith / bit_vector) requires ..` hint
     ("assertion not satisfied", "assert"),
     ("possible bit shift underflow/overflow", "overflow"),
     ("possible truncation", "overflow"),
